@@ -238,7 +238,9 @@ fn run(r: &mut Run) -> Result<(), MachineryError> {
     wrap_totality(r, "C04/wrap-adversarial-19", &adv, t.pick(2, 3))?;
     wrap_totality(r, "C04/wrap-core-8", &core, t.pick(4, 5))?;
     cheap_totality(r, "C04/cheap-adversarial-19", &adv, t.pick(4, 5))?;
-    cheap_totality(r, "C04/cheap-line-structure-10", &lines, t.pick(5, 7))?;
+    cheap_totality(r, "C04/cheap-line-structure-10", &lines, t.pick(5, 6))?;
+    // margins made of multi-byte whitespace and characters sharing its UTF-8 lead byte (dedent / indent / unfill)
+    cheap_totality(r, "C04/cheap-margins-7", &[SP, TAB, NB, L, NL, SHY, CR], t.pick(6, 8))?;
     nonfinite(r, t.pick(2, 3))?;
     #[cfg(feature = "full")]
     {
